@@ -1,15 +1,12 @@
-#!/usr/bin/env python3
-"""developer aid: materialise a selftest variant as a scratch copy and print its path (caller removes it).
-   d=$(tool/variant.py selftest/neutral/C11-r-D.json); QXV_REPO=$d QXV_WORK=$d/.qxv-work tool/show.py client/X.cpp fn"""
-import json, os, sys
-sys.path.insert(0, os.path.dirname(os.path.abspath(__file__)))
+import json,sys,os
+sys.path.insert(0,'/verif/tool')
 import mutate
-os.environ.setdefault('QXV_MUTATE_FROM_HEAD', '1')
-m = json.load(open(sys.argv[1]))
-root = mutate.scratch_copy()
-err = mutate.apply_edits(root, m.get('edits', []))
-if not err and m.get('patch'):
-    err = mutate.apply_patch(root, m['patch'])
-if err:
-    sys.stderr.write(err + '\n')
+os.environ['QXV_MUTATE_FROM_HEAD']='1'
+m=json.load(open(sys.argv[1]))
+root=mutate.scratch_copy()
+if m.get('patch') and m.get('patch_first'):
+    err=mutate.apply_patch(root,m['patch']) or mutate.apply_edits(root,m.get('edits',[]))
+else:
+    err=mutate.apply_edits(root,m.get('edits',[])) or (m.get('patch') and mutate.apply_patch(root,m['patch']))
+if err: sys.stderr.write(str(err)+'\n')
 print(root)
